@@ -104,6 +104,14 @@ def _check_borrowing(ck, repo, fi: FunctionInfo, mask: str, p_y: str):
         if isinstance(idx, ast.Name):
             loop = next((p_ for p_ in _parents_of(a) if isinstance(p_, ast.For) and isinstance(p_.target, ast.Name) and p_.target.id == idx.id), None)
             src = loop.iter if loop is not None else idx
+        # an index array made of the list (numpy.asarray(res, dtype=intp)) stands for the list
+        for _hop in range(3):
+            if isinstance(src, ast.Name):
+                d_ = [x for x in own_nodes(fi.node) if isinstance(x, ast.Assign) and len(x.targets) == 1 and isinstance(x.targets[0], ast.Name) and x.targets[0].id == src.id]
+                if len(d_) == 1 and isinstance(d_[0].value, ast.Call) and src_of(d_[0].value.func).split(".")[-1] in ("asarray", "array", "list", "tuple", "fromiter") and d_[0].value.args and isinstance(d_[0].value.args[0], ast.Name):
+                    src = d_[0].value.args[0]
+                    continue
+            break
         if not isinstance(src, ast.Name):
             ck.violated("C08.a", fi, a, "rows are added to the bucket mask from something else than the list of borrowed examples")
             continue
@@ -252,7 +260,7 @@ def check_b(ck, repo):
     else:
         c, gen, inner, f = sites[0]
         g = gen.generators[0]
-        ok = src_of(g.iter) == "enumerate(self.estimators_)" and isinstance(g.target, ast.Tuple) and len(g.target.elts) == 2
+        ok = (src_of(g.iter) == "enumerate(self.estimators_)" or expander(repo).text(g.iter, ap, stmt_of(c)) == "enumerate(self.estimators_)") and isinstance(g.target, ast.Tuple) and len(g.target.elts) == 2
         a = [src_of(x) for x in inner.args]
         if ok:
             i, m = [src_of(x) for x in g.target.elts]
